@@ -2,11 +2,15 @@
 # Development tool (not used by registered checks): run a command against a scratch copy of /repo.
 #   tools/with_tree.sh commit <rev> -- ./check C01 --no-selftest
 #   tools/with_tree.sh patch <file.diff> -- ./check C01 --no-selftest
+#   tools/with_tree.sh onbase <rev>:<file.diff> -- ./check C01 --no-selftest      (patch applied to an older commit)
 set -u
 mode=$1; arg=$2; [ "$mode" = patch ] && arg=$(realpath "$arg"); shift 3
 d=$(mktemp -d /tmp/j1939tree.XXXXXX)
 if [ "$mode" = commit ]; then
   git -C /repo archive "$arg" | tar -x -C "$d"
+elif [ "$mode" = onbase ]; then
+  git -C /repo archive "${arg%%:*}" | tar -x -C "$d"
+  (cd "$d" && patch -p1 -s < "$(realpath "${arg#*:}")") || { echo "patch failed"; rm -rf "$d"; exit 3; }
 else
   git -C /repo archive HEAD | tar -x -C "$d"
   # include uncommitted edits of /repo's working tree too
